@@ -77,3 +77,12 @@ pub(crate) fn stub_braid_model<const N: usize>(start: u32, data: &[u8]) -> u32 {
 // NOTE on replay: `cargo kani playback` runs the harness natively and does not apply `#[kani::stub]`.  Harness
 // assertions therefore never name a model function directly: expected values are written as calls to the stubbed
 // function itself (`crc32(..)`, `adler32(..)`), which is the model under CBMC and the real function under replay.
+
+/// `CStr::from_ptr` ends in the foreign function `strlen`, which Kani does not model: same contract, explicit loop.
+pub(crate) unsafe fn stub_cstr_from_ptr<'a>(ptr: *const core::ffi::c_char) -> &'a core::ffi::CStr {
+    let mut n = 0usize;
+    while unsafe { *ptr.add(n) } != 0 {
+        n += 1;
+    }
+    unsafe { core::ffi::CStr::from_bytes_with_nul_unchecked(core::slice::from_raw_parts(ptr as *const u8, n + 1)) }
+}
